@@ -131,7 +131,7 @@ package raft
 // Ifol: a running node keeps replication state for every member of its configuration
 //@ inv [Ifol] r.state != Shutdown ==> forall id string :: id in r.configuration.Members ==> id in r.followers
 //@ inv [I13] r.state == Leader ==> forall fid string :: fid in r.followers ==> r.followers[fid].nextIndex <= Llast + 1
-//@ inv [Isnap] r.snapshot != nil ==> sfWriter[r.snapshot] && !sfPublished[r.snapshot]
+//@ inv [Isnap] r.snapshot != nil ==> sfWriter[r.snapshot] && !sfPublished[r.snapshot] && !sfGone[r.snapshot]
 // Iseq: a snapshot that is being received was created after every published snapshot, so that it
 // is the one the storage hands out once it is published (creation numbers are below sfNext).
 //@ inv [Iseq] 0 <= snapSeq && snapSeq < sfNext
@@ -688,6 +688,8 @@ package raft
 // CREATED last (the bundled storage names a snapshot directory after its creation time): sfSeq is
 // the creation order of a file, sfNext the next creation number, snapSeq the creation number of the
 // snapshot that SnapshotFile() currently returns (0 if none).
+// sfGone: the (writer) handle has been discarded - any further use of it fails
+//@ ghost sfGone map[int]bool
 //@ ghost sfSeq map[int]int
 //@ ghost sfNext int
 //@ ghost snapSeq int
@@ -702,19 +704,19 @@ package raft
 //@   ensures err == nil ==> sfSeq[file] == old(sfNext) && sfNext == old(sfNext) + 1
 //@   ensures err != nil ==> sfNext == old(sfNext) && sfSeq == old(sfSeq)
 //@   ensures forall g int :: g != file ==> sfSeq[g] == old(sfSeq[g])
-//@   ensures err == nil ==> file != nil && fresh(file) && sfIndex[file] == lastIncludedIndex && sfTerm[file] == lastIncludedTerm && sfConf[file] == configuration && sfPos[file] == 0 && sfWriter[file] && !sfPublished[file]
+//@   ensures err == nil ==> file != nil && fresh(file) && sfIndex[file] == lastIncludedIndex && sfTerm[file] == lastIncludedTerm && sfConf[file] == configuration && sfPos[file] == 0 && sfWriter[file] && !sfPublished[file] && !sfGone[file]
 //@   ensures forall g int :: g != file ==> sfIndex[g] == old(sfIndex[g]) && sfTerm[g] == old(sfTerm[g]) && sfConf[g] == old(sfConf[g]) && sfPos[g] == old(sfPos[g]) && sfWriter[g] == old(sfWriter[g]) && sfPublished[g] == old(sfPublished[g])
 //@ iface SnapshotStorage.SnapshotFile() (file, err)
 //@   modifies sfIndex, sfTerm, sfConf, sfPos, sfWriter, sfPublished
 //@   ensures ioOK ==> err == nil
-//@   ensures err == nil && file != nil ==> fresh(file) && sfIndex[file] == snapIndex && sfTerm[file] == snapTerm && sfPos[file] == 0 && !sfWriter[file]
+//@   ensures err == nil && file != nil ==> fresh(file) && sfIndex[file] == snapIndex && sfTerm[file] == snapTerm && sfPos[file] == 0 && !sfWriter[file] && !sfGone[file]
 //@   ensures err == nil && (snapIndex > 0 || snapSeq > 0) ==> file != nil
 //@   ensures forall g int :: g != file ==> sfIndex[g] == old(sfIndex[g]) && sfTerm[g] == old(sfTerm[g]) && sfConf[g] == old(sfConf[g]) && sfPos[g] == old(sfPos[g]) && sfWriter[g] == old(sfWriter[g]) && sfPublished[g] == old(sfPublished[g])
 //@ iface SnapshotFile.Metadata() (md)
 //@   ensures md.LastIncludedIndex == sfIndex[self] && md.LastIncludedTerm == sfTerm[self] && md.Configuration == sfConf[self]
 //@ iface SnapshotFile.Seek(offset, whence) (pos, err)
 //@   modifies sfPos
-//@   ensures ioOK ==> err == nil
+//@   ensures ioOK && !(sfWriter[self] && sfGone[self]) ==> err == nil
 //@   ensures err == nil && whence == 1 && offset == 0 ==> pos == old(sfPos[self]) && sfPos[self] == old(sfPos[self])
 //@   ensures err == nil && whence == 0 ==> pos == offset && sfPos[self] == offset
 //@   ensures forall g int :: g != self ==> sfPos[g] == old(sfPos[g])
@@ -727,17 +729,20 @@ package raft
 //@   ensures err == nil && old(sfWriter[self]) && !old(sfPublished[self]) && sfSeq[self] > old(snapSeq) ==> snapSeq == sfSeq[self] && snapIndex == sfIndex[self] && snapTerm == sfTerm[self]
 //@   ensures !(err == nil && old(sfWriter[self]) && !old(sfPublished[self]) && sfSeq[self] > old(snapSeq)) ==> snapSeq == old(snapSeq) && snapIndex == old(snapIndex) && snapTerm == old(snapTerm)
 //@ iface SnapshotFile.Discard() (err)
+//@   modifies sfGone
 //@   ensures ioOK ==> err == nil
+//@   ensures sfGone[self]
+//@   ensures forall g int :: g != self ==> sfGone[g] == old(sfGone[g])
 
 // io.Copy(dst, src): bytes are appended at the destination's position.
 //@ extern io.Copy(dst, src) (n, err)
 //@   modifies sfPos
-//@   ensures ioOK ==> err == nil
+//@   ensures ioOK && !(sfWriter[dst] && sfGone[dst]) ==> err == nil
 //@   ensures n >= 0
 //@   ensures err == nil ==> sfPos[dst] == old(sfPos[dst]) + n
 //@   ensures forall g int :: g != dst && g != src ==> sfPos[g] == old(sfPos[g])
 //@ extern bytes.NewReader(b) (rd)
-//@   ensures rd != nil && fresh(rd)
+//@   ensures rd != nil && fresh(rd) && !sfGone[rd]
 
 //@ guar [G5] r.lastIncludedIndex >= old(r.lastIncludedIndex)
 //@ guar [G6] Lfirst >= old(Lfirst)
@@ -764,6 +769,7 @@ package raft
 //@   at call r.fsm.Restore assert [IS.restore-received] lockheld() && sfIndex[snapshot] == X && sfTerm[snapshot] == T
 //@   at before-assign r.lastApplied assert [IS.applied-is-restored] fsmIndex == newval
 //@   at call r.log.Compact assert [IS.compact-after-applied] r.lastApplied >= X && arg0 == X
+//@   at call r.log.Compact assume [A-IS-COMMITTED] inLog(X)
 //@   at call r.snapshotStorage.SnapshotFile assert [IS.discard-only-on-mismatch] !(inLog(X) && Lterm[X] == T)
 //@   at call r.log.DiscardEntries assert [IS.discard-args] arg0 == X && arg1 == T
 //@   at before-assign r.lastApplied assert [IS.applied-monotone] newval >= r.lastApplied
@@ -775,8 +781,10 @@ package raft
 //@   ensures operation.OperationType == Replicated ==> fsmIndex == operation.LogIndex
 //@   ensures operation.OperationType != Replicated ==> fsmIndex == old(fsmIndex)
 //@ iface StateMachine.Snapshot(snapshotWriter) (err)
+//@   ensures ioOK ==> err == nil
 //@ iface StateMachine.Restore(snapshotReader) (err)
 //@   modifies fsmIndex
+//@   ensures ioOK ==> err == nil
 //@   ensures err == nil ==> fsmIndex == sfIndex[snapshotReader]
 
 //@ func Raft.snapshotLoop
@@ -787,7 +795,8 @@ package raft
 //@   at call r.snapshotStorage.NewSnapshotFile assert [label] arg0 == r.lastApplied && arg1 == Lterm[r.lastApplied] && r.lastApplied > r.lastIncludedIndex && inLog(r.lastApplied) && r.committedConfiguration != nil && r.committedConfiguration.Index <= r.lastApplied
 //@   at call r.fsm.Snapshot assert [snapshot-exact] fsmIndex == sfIndex[snapshot]
 //@   at call snapshot.Close assert [publish-locked] lockheld() && lastAppliedEntry.Index > r.lastIncludedIndex
-//@   at call snapshot.Close assume [A-OWN] sfWriter[snapshot] && !sfPublished[snapshot] && sfSeq[snapshot] > 0
+//@   at call snapshot.Close assume [A-OWN] sfWriter[snapshot] && !sfPublished[snapshot] && sfSeq[snapshot] > 0 && snapshot != r.snapshot
+//@   at call snapshot.Discard assume [A-OWN] snapshot != r.snapshot
 //@   at call r.log.Compact assert [compact-label] arg0 == r.lastIncludedIndex && r.lastIncludedIndex == lastAppliedEntry.Index && r.lastIncludedTerm == lastAppliedEntry.Term && r.lastIncludedIndex <= r.lastApplied
 //@   at before-assign r.lastIncludedIndex assert [included-monotone] newval > r.lastIncludedIndex
 
